@@ -207,3 +207,57 @@ func (g *Grammar) wellFoundedRules() []int {
 	}
 	return wf
 }
+
+// LongSentence derives a sentence of roughly `budget` tokens by preferring, while the budget lasts, rules that contain
+// nonterminals (so recursive grammars give deep derivations: long lists, deep nesting) and finishing with the
+// well-founded rules. Unlike RandomSentence it does not stop early with probability 1/2 per step.
+func (g *Grammar) LongSentence(r *rng.R, budget int) []int {
+	wf := g.wellFoundedRules()
+	ml := g.MinLen()
+	const inf = 1 << 30
+	var out []int
+	steps := 0
+	var expand func(x int)
+	expand = func(x int) {
+		steps++
+		if !g.IsNT[x] {
+			out = append(out, x)
+			return
+		}
+		choice := wf[x]
+		if choice < 0 {
+			return
+		}
+		if len(out) < budget && steps < 8*budget+1000 {
+			var growing, any []int
+			for _, ri := range g.ByLHS[x] {
+				ok, hasNT := true, false
+				for _, s := range g.Rules[ri].R {
+					if ml[s] >= inf {
+						ok = false
+					}
+					if g.IsNT[s] {
+						hasNT = true
+					}
+				}
+				if !ok {
+					continue
+				}
+				any = append(any, ri)
+				if hasNT {
+					growing = append(growing, ri)
+				}
+			}
+			if len(growing) > 0 && r.Intn(10) < 9 {
+				choice = growing[r.Intn(len(growing))]
+			} else if len(any) > 0 {
+				choice = any[r.Intn(len(any))]
+			}
+		}
+		for _, s := range g.Rules[choice].R {
+			expand(s)
+		}
+	}
+	expand(g.Start)
+	return out
+}
